@@ -53,7 +53,7 @@ from stdnum.exceptions import *
 from stdnum.util import clean
 
 
-_gh_tin_re = re.compile(r'^[PCGQV]{1}00[A-Z0-9]{8}$')
+_gh_tin_re = re.compile(r'^[PCGQV]{1}00[0-9]{7}[A-Z0-9]$')
 
 
 def compact(number):
